@@ -680,3 +680,26 @@ Print Assumptions C13_from_save_loop_interpretation.
 Print Assumptions C13_to_save_loop_interpretation.
 Print Assumptions C13_data_loops_interpretation.
 Print Assumptions C13_save_translated.
+
+(* ==================== PHASE 6: air by name ==================== *)
+(* the three air states are rows of the registry table found BY NAME (minecraft:air, cave_air, void_air) by the
+   generator on every run; each is a valid id read back as itself; reg_is_air is membership in that set *)
+Theorem C13_air_by_name :
+  (lenN reg_air = 3)%N /\ NoDup reg_air /\ (forall a, In a reg_air -> (a < 26684)%N /\ reg_back a = a) /\
+  (forall v, reg_is_air v = true <-> exists a, In a reg_air /\ Z.of_N a = v).
+Proof.
+  pose proof air_facts as (A & B & C & _ & E). assert (R: reg_count = 26684%N) by reflexivity. rewrite R in C.
+  split; [exact A|]. split; [exact B|]. split; [exact C|exact E].
+Qed.
+(* the counter theorem with the air set of the running registry: every history of in-range SetBlock calls on
+   the empty section, whatever states it places - cave_air and void_air included *)
+Theorem C13_count_registry_air : forall ops,
+  Forall (fun iv => (0 <= fst iv < 4096)%Z) ops ->
+  fst (arr_set_blocks reg_is_air (0%Z, repeat 0%Z 4096) ops)
+  = non_air reg_is_air (snd (arr_set_blocks reg_is_air (0%Z, repeat 0%Z 4096) ops)).
+Proof.
+  intros ops H. apply C13_count_empty; [|exact H]. pose proof air_facts as (_ & _ & _ & D & _). exact D.
+Qed.
+
+Print Assumptions C13_air_by_name.
+Print Assumptions C13_count_registry_air.
